@@ -126,19 +126,20 @@ def build(spec, fault=None):
         calls["xs"].append(np.array(x, dtype=float).ravel().copy())
         if fault is not None and k in fault:
             return _faulty(fault[k], mode, x)
-        y = clean(x)
+        ys = spec.get("yscale", 1.0)
+        y = ys * clean(x)
         if mode != "det":
-            y = y + noise * float(np.random.randn())
+            y = y + ys * noise * float(np.random.randn())
         calls["ys"].append(y)
         if mode == "he":
-            sd = noise * (1.0 + 0.5 * abs(math.sin(float(np.sum(x)))))
+            sd = ys * noise * (1.0 + 0.5 * abs(math.sin(float(np.sum(x)))))
             return y, sd
         return y
 
     cons_fn = None
     ck = spec.get("cons")
     if ck:
-        r = {"ball": 2.5, "halfspace": 0.4, "slab": 0.35, "ring": 3.0, "sliver": 0.04}[ck]
+        r = {"ball": 2.5, "halfspace": 0.4, "slab": 0.35, "ring": 3.0, "sliver": 0.04, "tinyball": 1e-4, "lattice": 0.5}[ck]
         if x0 is not None:
             x0z = z_of(x0) * 4
         else:
@@ -146,15 +147,19 @@ def build(spec, fault=None):
             # ball/half-space/slab wide enough to contain the whole plausible box (any drawn x0 is feasible)
             mid = [math.sqrt(plb[i] * pub[i]) if logc[i] else 0.5 * (plb[i] + pub[i]) for i in range(D)]
             x0z = z_of(mid) * 4
-            r = {"ball": 2.2 * math.sqrt(D), "halfspace": 2.1 * D, "slab": 2.1, "ring": 3.0, "sliver": 2.1}[ck]
+            r = {"ball": 2.2 * math.sqrt(D), "halfspace": 2.1 * D, "slab": 2.1, "ring": 3.0, "sliver": 2.1, "tinyball": 2.2 * math.sqrt(D), "lattice": 0.5}[ck]
 
         def cons_fn(X):
             X = np.atleast_2d(np.asarray(X, dtype=float))
             out = np.empty(len(X))
             for j in range(len(X)):
                 z = z_of(X[j]) * 4
-                if ck == "ball":      # feasible: within radius r of the start point (in scaled units)
+                if ck in ("ball", "tinyball"):      # feasible: within radius r of the start point (in scaled units)
                     out[j] = float(np.sum((z - x0z) ** 2)) - r ** 2
+                elif ck == "lattice":   # feasible only near a coarse lattice through the start point: coarse poll points
+                    # (mesh >= 1/8 of the plausible box) are feasible, fine-grid ES candidates almost never are
+                    d = (z - x0z) / r
+                    out[j] = float(np.max(np.abs(d - np.round(d)))) * r - 0.004
                 elif ck == "halfspace":
                     out[j] = float(np.sum(z - x0z)) - r
                 elif ck in ("slab", "sliver"):    # thin slab around the start point along the first coordinate
